@@ -81,6 +81,13 @@ def _randomize(module, gen):
     with torch.no_grad():
         for p in module.parameters():
             p.copy_(torch.randn(p.shape, generator=gen) * 0.4)
+        # normalisation layers: running statistics as after some training (nflows' BatchNorm starts with running_var = 0, i.e. a
+        # scale of 1/sqrt(eps) = 316 per layer in evaluation mode: a correct but needle-shaped density that no fixed grid resolves)
+        for mod in module.modules():
+            rm, rv = getattr(mod, 'running_mean', None), getattr(mod, 'running_var', None)
+            if torch.is_tensor(rm) and torch.is_tensor(rv):
+                rm.copy_(0.3 * torch.randn(rm.shape, generator=gen))
+                rv.copy_(0.5 + torch.rand(rv.shape, generator=gen))
     return module
 
 
